@@ -12,6 +12,7 @@ import (
 	commonmodels "github.com/lindb/common/models"
 
 	"github.com/lindb/lindb/aggregation/function"
+	"github.com/lindb/lindb/flow"
 	"github.com/lindb/lindb/internal/concurrent"
 	"github.com/lindb/lindb/internal/linmetric"
 	"github.com/lindb/lindb/metrics"
@@ -487,5 +488,95 @@ func fixedCloseKeys(c *core.Ctx) {
 			k++
 		}
 	}
+	c.NonTrivial()
+}
+
+// fixed case: HAVING f1 > 2.0 over two groups, slot 1: group a has 1.0 (rejected), group b 5.0
+// (kept), slot 2: both above. Whatever order the groups are rendered in (12 renderings), group b
+// keeps its slot 1; direct and through intermediates, one and two leaves.
+func fixedHaving(c *core.Ctx) {
+	w := twoSeriesWorld(field.SumField)
+	w.Points = []Point{{0, 0, 1, 8}, {1, 0, 1, 40}, {0, 0, 2, 24}, {1, 0, 2, 32}}
+	q := &QueryDef{Selects: []SelectDef{{"f1", function.Unknown}}, GroupBy: []int{0}, NumSlots: 4, Limit: 100,
+		Having: &HavingDef{Field: "f1", Op: 1, Thr: 16}, ftypes: ftypesOf(w)}
+	ref := runLayout(c, w, q, reference(w), true, 0)
+	two := &Layout{Leaves: twoLeaves([]int{0}, []int{0}), LeafPerm: [][]int{{1, 0}}}
+	got := runLayout(c, w, q, two, true, 10)
+	via := &Layout{Leaves: twoLeaves([]int{0}, []int{0}), Receivers: 2, LeafPerm: [][]int{{0, 1}, {1, 0}}, RootPerm: []int{1, 0}}
+	got2 := runLayout(c, w, q, via, true, 20)
+	for _, g := range []runOut{got, got2} {
+		if g.res.Err != ref.res.Err || g.res.answerLine() != ref.res.answerLine() {
+			c.Fail("layout-changes-answer", fmt.Sprintf("having: single shard %q / layout %q", ref.res.answerLine(), g.res.answerLine()))
+		}
+	}
+	c.NonTrivial()
+}
+
+// fixed case: a group-by query with 8 live brokers (more than the 5 compute nodes the root asks
+// for): real RootMetricContext.MakePlan over real flow.BuildPhysicalPlan, then every target
+// handles the root's request with the real intermediate task processor. Exactly one target must
+// be the executor (not receive-only); 40 plans (the shuffle is time-seeded).
+func fixedManyBrokers(c *core.Ctx) {
+	w := twoSeriesWorld(field.SumField)
+	q := &QueryDef{Selects: []SelectDef{{"f1", function.Unknown}}, GroupBy: []int{0}, NumSlots: 4, Limit: 100, ftypes: ftypesOf(w)}
+	live := liveBrokers(8)
+	for draw := 0; draw < 40; draw++ {
+		deps := &querycontext.RootMetricContextDeps{
+			Ctx: context.Background(), Request: &models.Request{RequestID: "r1", DB: database}, Database: database,
+			CurrentNode: live[0], Statement: q.statement(w), Choose: &planChooser{live: live},
+		}
+		root := querycontext.NewRootMetricContext(deps)
+		root.SetTracker(newTracker())
+		if err := root.MakePlan(); err != nil {
+			panic(err)
+		}
+		reqs := root.GetRequests()
+		execs, silent := 0, 0
+		for t, req := range reqs {
+			plan := &models.PhysicalPlan{}
+			if err := jsonUnmarshal(req.PhysicalPlan, plan); err != nil {
+				panic(err)
+			}
+			for _, tg := range plan.Targets {
+				if tg.Indicator != t {
+					continue
+				}
+				if !tg.ReceiveOnly {
+					execs++
+					continue
+				}
+				// the real processor of a receive-only target: returns without answering
+				cur := models.StatelessNode{}
+				for _, n := range live {
+					if n.Indicator() == t {
+						cur = n
+					}
+				}
+				st := &capStream{}
+				taskCtx := flow.NewTaskContextWithTimeout(context.Background(), time.Second)
+				err := query.NewIntermediateTaskProcessor(cur, time.Second, nil, nil, nil).Process(taskCtx, st, req)
+				taskCtx.Release()
+				if err == nil && len(st.got) == 0 {
+					silent++
+				}
+			}
+		}
+		if execs != 1 {
+			key := "plan-with-several-executors"
+			if execs == 0 {
+				key = "plan-without-executor"
+			}
+			c.Fail(key, fmt.Sprintf("8 live brokers, group-by query: the root's plan has %d targets, %d executors, %d receive-only targets that answer nothing (draw %d)", len(reqs), execs, silent, draw))
+			break
+		}
+	}
+	c.Op("plan-shape 8 5", func() string {
+		t, e, d := checkPlanShape(c, 8, 5)
+		b := 0
+		if d {
+			b = 1
+		}
+		return fmt.Sprintf("targets=%d executors=%d distinct=%d", t, e, b)
+	}())
 	c.NonTrivial()
 }
